@@ -573,3 +573,97 @@ def rule_E(F, R):
         R.ok("E2", "the purge is committed with commit_operations (ordinary, synchronised operations)", where(b, cm[0][0]))
     else:
         R.violation("E2", subj, "not-committed", "the purge is not committed through commit_operations", where(b))
+
+
+def rule_M9(F, R):
+    R.begin("M9", "every Replica method that can change stored tasks drops the cached dependency map on the paths where it did (commit, undo, sync): otherwise BLOCKED/UNBLOCKED/BLOCKING and the dependency map keep reflecting the old statuses")
+    writers = {"storage::StorageTxn::set_task", "storage::StorageTxn::create_task", "storage::StorageTxn::delete_task"}
+    cg = F.callgraph()
+
+    def reaches_task_writer(path):
+        seen = F.reachable_from([path])
+        for q in seen:
+            for (_i, t) in F.calls_in.get(q, ()):
+                if any(n in writers for n in call_names(t)):
+                    return True
+        return False
+
+    methods = {}
+    for p, b in F.bodies.items():
+        im = b.get("impl") or {}
+        if b["kind"] == "AssocFn" and im.get("self", "").startswith("replica::Replica<") and not im.get("trait"):
+            methods[p] = b
+    ok_methods = set()
+    pending = []
+    n = 0
+    for p, b in sorted(methods.items()):
+        if not reaches_task_writer(p):
+            continue
+        n += 1
+        pending.append((p, b))
+    # iterate to a fixed point so delegation to an already-verified method is accepted
+    results = {}
+    for _round in range(3):
+        for (p, b) in pending:
+            rb = F.real_body(p)
+            c = cfg_of(rb)
+            try:
+                paths = [q for q in SymExec(rb, c, max_paths=4000).run() if q.end[0] == "return"]
+            except Exception as e:
+                results[p] = ("error", str(e), None)
+                continue
+            bad = None
+            for q in paths:
+                if not (q.ret and q.ret[0] == "A" and q.ret[2] == "Ok"):
+                    continue
+                wev = []
+                for e in q.events:
+                    tgt = None
+                    for nm in e["names"]:
+                        if nm in F.bodies:
+                            tgt = nm
+                    if tgt is None:
+                        continue
+                    if re.sub(r"::<[^>]*>", "", tgt) in {re.sub(r"::<[^>]*>", "", m) for m in ok_methods}:
+                        continue
+                    if tgt.startswith("replica::Replica::<S>::") and tgt in methods and tgt in {m for m in ok_methods}:
+                        continue
+                    if reaches_task_writer(tgt):
+                        wev.append(e)
+                if not wev:
+                    continue
+                # nothing-changed outcome: the writer's own result was tested false
+                wid = wev[-1]["id"]
+                if any(a[0] == "val" and _has(a[1], lambda z: z[0] == "C" and z[1] == wid) and o is False for (a, o, _bb) in q.atoms):
+                    continue
+                # an assignment `<self>.depmap = None` after the writer call, in path order
+                pos = q.blocks.index(wev[-1]["bb"]) if wev[-1]["bb"] in q.blocks else 0
+                cleared = False
+                for bb_ in q.blocks[pos:]:
+                    for st in c.blocks[bb_]["s"]:
+                        if st["k"] == "assign" and any(isinstance(e_, dict) and e_.get("n") == "depmap" for e_ in st["l"]["p"]):
+                            r_ = st["r"]
+                            if r_["k"] == "agg" and r_.get("variant") == "None":
+                                cleared = True
+                            elif r_["k"] == "use":
+                                from tc.flow import op_place as _opp
+                                from tc.util import flow_of as _fo, local_def as _ld
+                                pl_ = _opp(r_["o"])
+                                d_ = _ld(_fo(rb), pl_["l"]) if pl_ is not None and not pl_["p"] else None
+                                if d_ and d_[0] == "rv" and d_[1]["k"] == "agg" and d_[1].get("variant") == "None":
+                                    cleared = True
+                if not cleared:
+                    bad = wev[-1]
+                    break
+            results[p] = ("bad", bad, rb) if bad else ("ok", None, rb)
+            if not bad:
+                ok_methods.add(p)
+    for p, (st, info, rb) in sorted(results.items()):
+        short = p.split("::")[-1]
+        if st == "ok":
+            R.ok("M9", "%s drops the cached dependency map after changing tasks (or delegates to a method that does)" % short, where(rb))
+        elif st == "error":
+            R.violation("M9", p, "table-extraction", "cannot extract paths of %s: %s" % (short, info), None)
+        else:
+            R.violation("M9", p, "stale-dependency-map", "%s changes stored tasks through %s at %s and can return Ok with the cached dependency map kept: tasks loaded afterwards report BLOCKED/UNBLOCKED/BLOCKING from the old state" % (short, info["callee"].split("::")[-1], loc(info["sp"])), where(rb, info["bb"]))
+    R.floor("M9", "Replica methods that can change stored tasks", n, 4)
